@@ -386,6 +386,13 @@ func multiFile(o *hx.Out, r *hx.Rand, bin string, thorough bool) {
 	for it := 0; it < n; it++ {
 		useImportPath := r.Chance(40)
 		samePkg := useImportPath || r.Chance(50)
+		// the first iterations are written out: a file in its own Go package whose methods are all client-streaming
+		// or bidi (their legacy stub signatures name no message type) and take (1) or return (2) a message of the
+		// other package
+		forced := 0
+		if it < 2 {
+			useImportPath, samePkg, forced = false, false, it+1
+		}
 		dir := r.Pick([]string{"", "api/", "acme/api/v1/"})
 		mk := func(base, pkg, gopkg string) *descriptorpb.FileDescriptorProto {
 			f := &descriptorpb.FileDescriptorProto{Name: str(dir + base), Syntax: str("proto3"), Package: str(pkg)}
@@ -421,7 +428,17 @@ func multiFile(o *hx.Out, r *hx.Rand, bin string, thorough bool) {
 					if r.Chance(25) {
 						in = "." + pkg + ".Local" + names.CamelCase(svcs[0])
 					}
-					sd.Method = append(sd.Method, &descriptorpb.MethodDescriptorProto{Name: str(mn), InputType: str(in), OutputType: str("." + pkgA + ".Resp"),
+					outT := "." + pkgA + ".Resp"
+					if forced != 0 && pkg != pkgA {
+						cs, ss = true, m%2 == 1
+						local := "." + pkg + ".Local" + names.CamelCase(svcs[0])
+						if forced == 1 {
+							in, outT = "."+pkgA+".Req", local
+						} else {
+							in, outT = local, "."+pkgA+".Resp"
+						}
+					}
+					sd.Method = append(sd.Method, &descriptorpb.MethodDescriptorProto{Name: str(mn), InputType: str(in), OutputType: str(outT),
 						ClientStreaming: proto.Bool(cs), ServerStreaming: proto.Bool(ss)})
 					mTerms = append(mTerms, fmt.Sprintf("{| me_name := %s; me_cs := %s; me_ss := %s |}", hx.Str(mn), hx.B(cs), hx.B(ss)))
 				}
@@ -447,7 +464,7 @@ func multiFile(o *hx.Out, r *hx.Rand, bin string, thorough bool) {
 		for _, i := range order {
 			toGen = append(toGen, gen[i].GetName())
 		}
-		legacy := r.Chance(75)
+		legacy := r.Chance(75) || forced != 0
 		var params []string
 		if legacy {
 			params = append(params, "legacy_stubs")
@@ -488,6 +505,8 @@ func multiFile(o *hx.Out, r *hx.Rand, bin string, thorough bool) {
 						valid, desc["error"] = false, "generated code is not valid Go: "+perr.Error()
 					} else if bad := foreignImports(out.GetContent(), allowed); len(bad) > 0 {
 						valid, desc["error"] = false, fmt.Sprintf("generated code imports %q, a package no file of the request maps to", bad)
+					} else if bad := unusedImports(out.GetContent()); len(bad) > 0 {
+						valid, desc["error"] = false, fmt.Sprintf("generated code imports %q and does not use it: it does not compile", bad)
 					}
 				}
 			}
@@ -522,6 +541,39 @@ func foreignImports(src string, allowed map[string]bool) (bad []string) {
 	for _, im := range f.Imports {
 		p := strings.Trim(im.Path.Value, "\"")
 		if !allowed[p] {
+			bad = append(bad, p)
+		}
+	}
+	return
+}
+
+// unusedImports lists the imports of a generated file that nothing in the file refers to: such a file does
+// not compile ("imported and not used")
+func unusedImports(src string) (bad []string) {
+	fset := token.NewFileSet()
+	f, err := parser.ParseFile(fset, "gen.go", src, 0)
+	if err != nil {
+		return nil
+	}
+	used := map[string]bool{}
+	ast.Inspect(f, func(n ast.Node) bool {
+		if se, ok := n.(*ast.SelectorExpr); ok {
+			if id, ok := se.X.(*ast.Ident); ok {
+				used[id.Name] = true
+			}
+		}
+		return true
+	})
+	for _, im := range f.Imports {
+		p := strings.Trim(im.Path.Value, "\"")
+		name := p[strings.LastIndex(p, "/")+1:]
+		if im.Name != nil {
+			name = im.Name.Name
+		}
+		if name == "_" || name == "." {
+			continue
+		}
+		if !used[name] {
 			bad = append(bad, p)
 		}
 	}
